@@ -1042,6 +1042,12 @@ def check_step(env, rng, res, step, exact, counts):
     spec = step["spec"]
     tol = 0 if exact else RTOL
     obs = Obs(res)
+    if getattr(env, "trace", None) is not None:
+        img = [tuple(res.inputs)]
+        if obs.g is not None:
+            img += [np.asarray(obs.g.white_vec).tobytes(), np.asarray(obs.g.prec_sqrt).tobytes()]
+        img += [np.asarray(t.data).tobytes() for t in obs.ts]
+        env.trace.append(img)
     # ---- inputs of the result ------------------------------------------------------------
     got_inputs = {k: (("real", tuple(d.shape)) if d.dtype == "real" else ("bint", d.size))
                   for k, d in res.inputs.items()}
@@ -1149,17 +1155,25 @@ class Env:
         self.ctx = ctx
         self.use_driver = use_driver and ctx.driver.available()
         self.driver = ctx.driver
+        self.trace = None          # when a list: bitwise images of every observed result (history gate)
 
     def infra(self, msg):
         self.ctx.infra_errors.append(msg)
 
 
-def run_case(env, case_seed, tier, counts, stream="clean"):
+def run_case(env, case_seed, tier, counts, stream="clean", sibling=False):
     """One chain.  Returns (n_steps_checked, nontrivial_key, sample) or raises CaseFail with witness."""
     if stream == "subs-order":
         return subs_order_case(env, case_seed, tier, counts)
     rng = random.Random(case_seed)
     order = gen_signature(rng)
+    if sibling:
+        # same input names in the same order, block sizes of the real inputs rotated (another layout)
+        rs = [o for o in order if o[0] == "r"]
+        shs = [o[2] for o in rs]
+        shs = shs[1:] + shs[:1]
+        it = iter(shs)
+        order = [("r", o[1], next(it)) if o[0] == "r" else o for o in order]
     history = []
     try:
         if stream == "plate-mixture":
@@ -1268,6 +1282,17 @@ class _Quiet:
 
 def replay_case(case_seed, tier="quick", stream="clean"):
     env = Env(_Quiet(), use_driver=False)
+    if stream == "aba":
+        traces = []
+        for sib in (False, True, False):
+            env.trace = []
+            try:
+                run_case(env, case_seed, tier, lambda *a, **k: None, sibling=sib)
+            except CaseFail as cf:
+                print("still fails:", cf.name)
+                return True
+            traces.append(env.trace)
+        return traces[0] != traces[2]
     try:
         run_case(env, case_seed, tier, lambda *a, **k: None, stream)
     except CaseFail as cf:
@@ -1369,6 +1394,37 @@ def subs_order_case(env, case_seed, tier, counts):
     return n_ok, (case_seed, "subs-order"), dict(case_seed=case_seed, ops=["gaussian", "subs_real x all orders"])
 
 
+def history_stream(ctx, env, n):
+    """History-independence: a chain A, then a sibling chain B over the same ordered input names with the block
+    sizes rotated, then A again — every step checked against its spec as usual, and the second run of A must
+    reproduce the first run's results bit for bit (results are a pure function of the arguments)."""
+    for _ in range(n):
+        seed = ctx.rng.getrandbits(48)
+        traces = []
+        try:
+            for sib in (False, True, False):
+                env.trace = []
+                try:
+                    run_case(env, seed, ctx.tier, ctx.count if sib else (lambda *a, **k: None), sibling=sib)
+                finally:
+                    traces.append(env.trace)
+                    env.trace = None
+        except CaseFail as cf:
+            if isinstance(cf.kw.get("witness"), dict):
+                cf.kw["witness"]["stream"] = "aba"
+            report(ctx, cf, "aba")
+            continue
+        ctx.count("history:A-B-A")
+        if traces[0] != traces[2]:
+            ctx.fail("input", "C12.history-dependent-result",
+                     witness=dict(case_seed=seed, stream="clean", tier=ctx.tier, history="A, sibling(A), A"),
+                     expected="bitwise identical results when the chain is re-run after its sibling",
+                     got=f"{sum(a != b for a, b in zip(traces[0], traces[2]))} of {len(traces[0])} step results differ",
+                     python=PY_TEMPLATE.format(verif=str(__import__('fv.common').common.VERIF), case_seed=seed,
+                                               tier=ctx.tier, stream="aba"))
+        ctx.case(nontrivial_key=("aba", seed) if len(traces[0]) >= 2 else None)
+
+
 def finding_stream(ctx, env, key, n):
     """Dedicated stream of an open finding (region kept out of the clean stream, see AVOID)."""
     fid = AVOID[key]
@@ -1431,6 +1487,7 @@ def correspond(ctx, use_driver=True, volume=None):
             continue
         if nsteps:
             ctx.case(sample=sample, nontrivial_key=key)
+    history_stream(ctx, env, 40 if ctx.tier == "quick" else 800)
     for key in AVOID:
         finding_stream(ctx, env, key, 12 if ctx.tier == "quick" else 60)
     float_decline_stream(ctx)
